@@ -8,9 +8,14 @@ CONSTANTS
   AllowVSkip = FALSE
   AllowReturn = TRUE
   AllowMoved = FALSE
+  AllowHost = FALSE
+  AllowRename = FALSE
   MaxFunctions = 1
   Stepwise = TRUE
-  COrder = FALSE
+  AliasRecheck = FALSE
+  CallableWalks = 2
+  RenameScopeCheck = TRUE
+  COrder = TRUE
   Orders <- Id2
   KnownShapes <- W_alias_cb
   ExportViol = 0
